@@ -311,3 +311,72 @@ def func_ids():
         _func_ids = {p.plugin.__name__: p.plugin._test_id for p in extension_loader.MANAGER.plugins}
         _func_ids["blacklist"] = "B001"
     return _func_ids
+
+
+# ----------------------------------------------------------------------------- CLI in-process
+class _KeepOpen(io.StringIO):
+    """stdout stand-in that survives `with fileobj:` in the formatters"""
+    def close(self):
+        pass
+
+    def isatty(self):
+        return False
+
+    name = "<stdout>"
+
+
+def run_cli(argv, stdin_bytes=None, cwd=None, entry="main"):
+    """Run a bandit console script in-process.  Returns dict(exit, out, err, exc).
+    exit is the SystemExit code (None if main returned); exc is the class name of any other
+    exception that escaped (a traceback in real life)."""
+    import contextlib
+    linecache.clearcache()
+    take_log()
+    if entry == "main":
+        from bandit.cli import main as m
+    elif entry == "baseline":
+        from bandit.cli import baseline as m
+    elif entry == "config_generator":
+        from bandit.cli import config_generator as m
+    else:
+        raise ValueError(entry)
+    out, err = _KeepOpen(), _KeepOpen()
+    old = (sys.argv, sys.stdin, sys.stdout, sys.stderr, os.getcwd())
+    root = logging.getLogger()
+    old_handlers, old_level = root.handlers[:], root.level
+    res = {"exit": None, "out": "", "err": "", "exc": None}
+    rfd = None
+    try:
+        sys.argv = ["bandit"] + list(argv)
+        sys.stdout, sys.stderr = out, err
+        if cwd:
+            os.chdir(cwd)
+        if stdin_bytes is not None:
+            # manager reads os.fdopen(sys.stdin.fileno()): give it a real fd
+            r, w = os.pipe()
+            os.write(w, stdin_bytes) if len(stdin_bytes) < 60000 else None
+            if len(stdin_bytes) >= 60000:
+                import threading
+                threading.Thread(target=lambda: (os.write(w, stdin_bytes), os.close(w))).start()
+            else:
+                os.close(w)
+            sys.stdin = os.fdopen(r, "r")
+        try:
+            m.main()
+        except SystemExit as e:
+            res["exit"] = e.code if isinstance(e.code, int) or e.code is None else 1
+            if e.code is None:
+                res["exit"] = 0
+        except BaseException as e:  # noqa: a traceback for the user
+            res["exc"] = type(e).__name__
+            res["exc_msg"] = str(e)[:300]
+    finally:
+        sys.argv, sys.stdin, sys.stdout, sys.stderr = old[0], old[1], old[2], old[3]
+        os.chdir(old[4])
+        root.handlers[:] = old_handlers
+        root.setLevel(old_level)
+        logging.captureWarnings(False)
+        setup_logging()
+    res["out"] = out.getvalue()
+    res["err"] = err.getvalue()
+    return res
